@@ -23,6 +23,14 @@ Tie between model and source
 * stream `entry`: random call records (formula / structured formula / ModelSpec / ModelSpecs with assorted
   materializer settings, overrides incl. invalid ones, context mapping or none, a drop_rows set or none, data the
   registry knows or not) through every applicable entry point against `requestVia`.
+* stream `registry`: `__register_implementation__`, `for_materializer`, `for_data` on the live registry and on registries
+  extended (or replaced) by 0-4 random extra materializer classes, against `Model/Registry.lean`; oracle: the class returned
+  accepts the input and offers the output, explicit registrations first, highest precedence, an error only when no class does.
+* stream `relabel`: a spec trained on one frame is materialised, through every spec-based entry point, output type and
+  materializer, on rows whose pandas labels are not 0..n-1; oracle: every variant equals the matrix of the same rows under
+  fresh labels, pandas outputs carry the kept rows' labels by position (no model).
+* stream `wrapper`: copy / deepcopy / pickle of a ModelMatrix of each output type and the leaf checks of ModelMatrices /
+  ModelSpecs, against `Model/Wrapper.lean`.
 * stream `sparseops`: the real `scipy.sparse` operations the sparse path uses (`csc_matrix(dense)`, `.multiply`,
   scalar `*`, `hstack`) and `categorical_encode_series_to_sparse_csc_matrix`, plus the real
   `PandasMaterializer._get_columns_for_term` + `_combine_columns` for output sparse and numpy, against
@@ -47,49 +55,94 @@ REQUIRED_THEOREMS = [
     "sparse_encode",
     "sparse_hstack",
     "sparse_refines_dense",
+    "registration_closed_form",
+    "for_materializer_spec",
+    "for_data_first_candidate",
+    "for_data_sound_complete",
+    "for_data_priority",
+    "for_data_set_order_irrelevant",
+    "live_registry_reproduced",
+    "declared_inputs_dispatched",
+    "wrapper_keeps_spec_and_numbers",
+    "containers_spec",
+    "model_constants_are_live",
     "entry_points_agree",
     "entry_points_fail_together",
     "drop_rows_forwarding",
+    "entry_points_agree_exactly",
     "context_layering",
+    "registry_view_faithful",
+    "dispatched_class_serves_request",
+    "requests_are_consistent",
+    "same_numbers_any_output_any_entry",
 ]
 TRUSTED = [
     "modelled, not verified: scipy's CSC storage and arithmetic, numpy broadcasting, narwhals' conversions, pyarrow memory "
     "layout — only their observable values (stored entries / dense values) enter the correspondence",
-    "`FormulaMaterializer.for_data(data)` is a parameter of the plumbing model: the harness passes the registered name the "
-    "live registry returns for the data at hand; the registry itself (`REGISTER_NAME -> REGISTER_OUTPUTS`) and the NAAction "
-    "values are generated tables",
+    "`SUPPORTS_INPUT(data)` (narwhals' `is_into_dataframe` / `is_narwhals_dataframe`), `type(data).__module__/__qualname__` and "
+    "the iteration order of `set(REGISTERED_NAMES.values())` are parameters of the registry model: the harness reads them off "
+    "the live objects per case (the theorems hold for every value of them); the registry itself — classes with their "
+    "REGISTER_NAME / INPUTS / OUTPUTS / PRECEDENCE, the two registry dicts, one probe object per kind of data — is the generated "
+    "table Gen/Registry.lean, and `for_data(data)` is computed by the model, no longer supplied by the harness",
+    "`__register_implementation__` is modelled on what it reads of a class (own/inherited REGISTER_NAME, own REGISTER_INPUTS, "
+    "outputs, precedence); Python class creation, InterfaceMeta's conformance checks and `_init` of a materializer (dict / record "
+    "array -> DataFrame, narwhals `from_native`) are exercised by the streams but not modelled",
     "frame capture (`context=<int>` of `model_matrix`) is not modelled; formulas, data, context mappings, drop_rows sets and "
     "materializer params are opaque identities in the plumbing model",
-    "the whole-matrix agreement of the three materializer/input combinations is established by the `outputs` stream "
-    "(pairwise equality of the implementation's own outputs) and by `kind_tables_agree`; narwhals/pyarrow conversions are not proved",
-    "reuse of a spec that already has structure (`ScopedTerm.rehydrate`, `_enforce_structure`, recorded encoder state) and reuse "
-    "of one materializer instance for several calls (`factor_cache`/`encoded_cache`) are not modelled: the `outputs` and `reuse` "
-    "streams compare the real code's matrices with one another (spec-based vs formula-based entry points; reused vs fresh "
-    "instance); only the plumbing of the spec-based calls is tied to `requestVia`",
+    "the whole-matrix agreement of the materializer/input combinations (pandas; narwhals on a pandas frame, a pyarrow table, "
+    "a narwhals frame; pandas on a dict / record array) is established by the `outputs` stream (pairwise equality of the "
+    "implementation's own outputs) and by `kind_tables_agree`; narwhals/pyarrow conversions are not proved. "
+    "`same_numbers_any_output_any_entry` is about the model: what a formula evaluates to on the data (`content`) is a parameter there",
+    "reuse of a spec that already has structure (`ScopedTerm.rehydrate`, `_enforce_structure`, recorded encoder state), also on "
+    "rows with other pandas labels (stream `relabel`), and reuse of one materializer instance for several calls, also after a "
+    "call that raised (stream `reuse`), are not modelled: these streams compare the real code's matrices with one another "
+    "(spec-based vs formula-based entry points; relabelled rows vs the same rows under 0..n-1; reused vs fresh instance); only "
+    "the plumbing of the spec-based calls is tied to `requestVia`",
+    "the copiers of the wrapper model (`copy.copy` / `copy.deepcopy` / pickle of pandas, numpy, scipy, narwhals objects and of a "
+    "ModelSpec) are parameters; `wrapper_keeps_spec_and_numbers` assumes they preserve content, the `wrapper` stream observes it",
 ]
 ASSUMPTIONS = [
-    "sparse_refines_dense: every evaluated factor has one value per row (`srcOK`: numpy/scipy enforce equal shapes) and the "
-    "levels of a categorical factor are distinct (pandas enforces unique categories)",
-    "entry_points_agree compares the requests modulo the `drop_rows` argument (its forwarding is property C06's concern; "
-    "`drop_rows_forwarding` states exactly what the code does); ModelSpec values in a call are valid (constructed by the "
-    "library); the materializer-method entry point is compared when the leaves of a structured spec agree on a materializer",
+    "sparse_refines_dense / same_numbers_any_output_any_entry: every evaluated factor has one value per row (`srcOK`: numpy/scipy "
+    "enforce equal shapes) and the levels of a categorical factor are distinct (pandas enforces unique categories)",
+    "entry_points_agree compares the requests modulo the `drop_rows` argument (`drop_rows_forwarding` states exactly what the code "
+    "does; `entry_points_agree_exactly` gives identical requests when both forwarding flags, probed on the live code, are set); "
+    "ModelSpec values in a call are valid (constructed by the library); the materializer-method entry point is compared when the "
+    "leaves of a structured spec agree on a materializer",
+    "declared_inputs_dispatched quantifies over the generated probe table (one object per kind of data the streams use); "
+    "for_data_* hold for every registry, data record and set order",
+    "the class `for_data` picks is looked up again by its REGISTER_NAME in the plumbing model (`Call.dataMat`): exact for classes "
+    "registered under their own name (every class of the live registry, checked by `live_registry_reproduced`)",
 ]
 RULE = (
     "outputs: frames of 1-6 rows (quick; up to 30 thorough) with 1-2 text/categorical columns (object, str, string[pyarrow], "
     "category with declared order and unused categories), 1-2 numeric columns (float64/int64, dyadic values), a bool column, "
     "nulls in 30% of the cases; formulas of 1-4 terms over names, C(x[, contr.*]), I(), a context function, interactions up "
     "to degree 3, literal scalings, intercept on/off; x ensure_full_rank x na_action x cluster_by; 9 output/materializer "
-    "variants through the top-level function plus the 4 other entry points at one random variant, plus the model-spec entry "
+    "variants through the top-level function, the same data as dict of columns / dict of scalars (1 row) / record array / "
+    "narwhals frame (stable-v1 and main namespace, on pandas and on pyarrow) dispatched by the registry, output='narwhals' on "
+    "three inputs, plus the 4 other entry points at one random variant, plus the model-spec entry "
     "points on the spec attached to that variant's matrix (spec method, top-level function on the spec and on the matrix, "
-    "materializer method; and the spec method with a random other materializer/input/output as overrides). reuse: frames of "
+    "materializer method; and the spec method with a random other materializer/input/output as overrides), plus copy / deepcopy "
+    "/ pickle of that matrix (and each handed back as a spec) and the two-part formula `1 ~ ...` (ModelMatrices, handed back as a spec). "
+    "reuse: frames of "
     "2-6 rows (20 thorough, nulls in 40%), one pandas/narwhals/narwhals-on-arrow materializer instance, 2-4 calls with random "
     "formula (the first one again in half of the calls), output, ensure_full_rank, na_action, cluster_by, given as formula "
-    "text / spec of the previous matrix / spec trained on the first half of the rows; each call against a fresh instance. "
-    "entry: random call records "
-    "(see module docstring). sparseops: random sparse/dense columns of 0-7 rows, 1-3 factors per term, 1-3 terms. "
+    "text / spec of the previous matrix / spec trained on the first half of the rows; 35% of the cases contain a call that raises "
+    "while a later term is encoded, followed by a call with another output type (70%: the same valid terms); each call against a fresh instance. "
+    "relabel: frames of 3-8 rows (24 thorough), formula of 1-3 terms over A, C(A, levels=perm), C(A, contr.*), A:x, C(A,..):x, A:B, x; "
+    "spec trained by a random materializer/output, reused on rows labelled slice/shuffled/reversed/dups/str/disjoint/shifted through "
+    "9 materializer x output combinations + 5 entry points at one combination. "
+    "entry: random call records (formula / structured formula / ModelSpec / ModelSpecs, 20% with leaves that disagree on output / "
+    "na_action / ensure_full_rank; materializer given by name, as class, "
+    "instance, unregistered class or junk; overrides incl. invalid ones; context mapping or none; a drop_rows set or none; data = "
+    "pandas / pyarrow / dict / record array / narwhals stable / narwhals main / a list). registry: one sweep of every probe kind x 6 "
+    "outputs on the live registry, then 0-4 random extra classes (own/inherited/empty/duplicate names, 0-3 declared input types, 0-3 "
+    "outputs, precedences with ties, SUPPORTS_INPUT sets) on the live or an empty registry and 3-8 for_data / for_materializer queries. "
+    "wrapper: 0-4 copy/deepcopy/pickle operations on a matrix of each output type, 0-3 leaves offered to ModelMatrices/ModelSpecs. "
+    "sparseops: random sparse/dense columns of 0-7 rows, 1-3 factors per term, 1-3 terms. "
     "non-trivial = outputs case with an interaction or a categorical column, reuse case with two different calls, entry case "
-    "with a structured spec or overrides, "
-    "sparseops case with at least two factors; distinct by canonical JSON"
+    "with a structured spec or overrides, registry case with two extra classes or the sweep, every relabel case, wrapper case with "
+    "two operations or leaves, sparseops case with at least two factors; distinct by canonical JSON"
 )
 
 MATS = ["pandas", "narwhals", "arrow"]
@@ -118,7 +171,23 @@ def dbl(v):
     return v * 2
 
 
-CONTEXT = {"dbl": dbl}
+def arr1(v):
+    """a context function that returns a plain 1-d numpy array"""
+    return numpy.asarray(v.to_numpy(), dtype=float)
+
+
+def arr2(v):
+    """... a 2-d numpy array: a numeric factor with two unnamed columns (`as_columns` numbers them)"""
+    a = numpy.asarray(v.to_numpy(), dtype=float)
+    return numpy.column_stack([a, a * a])
+
+
+def arr3(v):
+    """... a 3-d numpy array, which no materializer can turn into columns (ValueError in `as_columns`)"""
+    return numpy.asarray(v.to_numpy(), dtype=float).reshape((-1, 1, 1))
+
+
+CONTEXT = {"dbl": dbl, "arr1": arr1, "arr2": arr2, "arr3": arr3}
 
 # ----------------------------------------------------------------------------- recording
 
@@ -153,11 +222,21 @@ class Recorder:
                 e["simplify"] = isinstance(spec, ModelSpec)
             return out
 
+        self.orig_init = FormulaMaterializer.__init__
+
+        def init(self, data, context=None, **params):
+            # `_init` of the pandas materializer replaces a dict / record array by the frame it builds from it:
+            # remember the object the constructor was GIVEN
+            self._verif_init_data = data
+            return rec.orig_init(self, data, context=context, **params)
+
+        FormulaMaterializer.__init__ = init
         FormulaMaterializer.get_model_matrix = gmm
         FormulaMaterializer._prepare_model_specs = prep
         return self
 
     def __exit__(self, *a):
+        self.cls.__init__ = self.orig_init
         self.cls.get_model_matrix = self.orig_gmm
         self.cls._prepare_model_specs = self.orig_prep
 
@@ -173,7 +252,7 @@ class Recorder:
             out.append(
                 dict(
                     mat=type(m).REGISTER_NAME,
-                    data=0 if m.data is w["data"] else -1,
+                    data=0 if getattr(m, "_verif_init_data", m.data) is w["data"] else -1,
                     context=None if not m.context else (1 if m.context is w["context"] else -1),
                     layers=[getattr(l, "name", None) for l in m.layered_context._layers],
                     params=w["params_id"](m.params),
@@ -218,7 +297,15 @@ def gen_ms(rng, allow_struct=False):
 def gen_overrides(rng, malformed):
     ov = []
     if rng.random() < 0.45:
-        ov.append(["materializer", rng.choice(["pandas", "narwhals", None] + (["nope"] if malformed else []))])
+        m = rng.choice(["pandas", "narwhals", None] + (["nope"] if malformed else []))
+        r = rng.random()
+        if malformed and r < 0.3:
+            m = dict(t="other", name=None)  # neither a name nor a materializer
+        elif r < 0.06:
+            m = dict(t="cls", name=None)  # a materializer class that does not register itself (REGISTER_NAME None)
+        elif m in ("pandas", "narwhals") and r < 0.4:
+            m = dict(t=rng.choice(["cls", "inst"]), name=m)  # the class itself / an instance of it
+        ov.append(["materializer", m])
     if rng.random() < 0.4:
         ov.append(["ensure_full_rank", rng.random() < 0.5])
     if rng.random() < 0.4:
@@ -249,18 +336,49 @@ def gen_entry_case(rng):
         if rng.random() < 0.5:  # make the leaves agree more often
             b["materializer"] = rng.choice([a["materializer"], None])
             b["params"] = a["params"]
-        for leaf in (a, b):  # leaves of one ModelSpecs must agree on these (else RuntimeError in the library)
-            leaf["efr"], leaf["na"], leaf["output"] = a["efr"], a["na"], a["output"]
+        if rng.random() < 0.8:
+            # leaves that are materialised jointly must agree on these; the rest of the cases leaves them as drawn:
+            # RuntimeError from every entry point on the joint path, one request per leaf otherwise
+            for leaf in (a, b):
+                leaf["efr"], leaf["na"], leaf["output"] = a["efr"], a["na"], a["output"]
         spec = dict(t="mspecs", parts=[a, b])
-    data = rng.choice(["pandas", "pandas", "arrow", "unsupported"] if malformed else ["pandas", "pandas", "arrow"])
+    data = rng.choice(DATA_KINDS + ["pandas"] * 3 + ["arrow"] + (["unsupported"] * 3 if malformed else []))
     ov = gen_overrides(rng, malformed)
     if data != "pandas":
-        # the pandas materializer cannot work on a pyarrow table / a list: keep the materialisation itself feasible
-        fix = (lambda m: "narwhals" if m == "pandas" else m) if data == "arrow" else (lambda m: None if m in ("pandas", "narwhals") else m)
+        # a materializer cannot be built on every kind of data (pandas: not on a pyarrow table or a narwhals frame; narwhals:
+        # not on a dict or a record array; none on a list): keep the materialisation itself feasible
+        only = {"arrow": "narwhals", "nwstable": "narwhals", "nwmain": "narwhals", "dict": "pandas", "recarray": "pandas"}.get(data)
+        fixname = lambda m: (only if m in ("pandas", "narwhals") else m) if only else (None if m in ("pandas", "narwhals") else m)
+        fix = lambda m: dict(m, name=fixname(m["name"])) if isinstance(m, dict) else fixname(m)
         ov = [[k, fix(v)] if k == "materializer" else [k, v] for k, v in ov]
         for leaf in ([spec["ms"]] if spec["t"] == "mspec" else spec.get("parts", []) if spec["t"] == "mspecs" else []):
             leaf["materializer"] = fix(leaf["materializer"])
     return dict(kind="entry", spec=spec, data=data, context=rng.random() < 0.5, drop=rng.random() < 0.5, overrides=ov)
+
+
+DATA_KINDS = ["pandas", "arrow", "dict", "recarray", "nwstable", "nwmain"]
+_UNREGISTERED = []
+
+
+def _unregistered_class():
+    """a working materializer class that does not register itself (`REGISTER_NAME = None`)"""
+    if not _UNREGISTERED:
+        from formulaic.materializers import PandasMaterializer
+
+        _UNREGISTERED.append(type(PandasMaterializer)("UnregisteredMaterializer", (PandasMaterializer,), {"REGISTER_NAME": None}))
+    return _UNREGISTERED[0]
+
+
+def _mat_object(m):
+    """the Python value of a `materializer=` entry of a case"""
+    if not isinstance(m, dict):
+        return m
+    from formulaic.materializers import FormulaMaterializer
+
+    if m["t"] == "other":
+        return 42
+    cls = FormulaMaterializer.REGISTERED_NAMES[m["name"]] if m["name"] is not None else _unregistered_class()
+    return cls if m["t"] == "cls" else cls(pandas.DataFrame({"q": [1.0]}))
 
 
 def _ov_kwargs(ov):
@@ -268,8 +386,25 @@ def _ov_kwargs(ov):
     for k, v in ov:
         if k == "materializer_params":
             v = PARAMS[v]
+        elif k == "materializer":
+            v = _mat_object(v)
         kw[k] = v
     return kw
+
+
+def _probe_facts(data):
+    """what `for_data` reads of the data: type module / qualname, and which registered classes' SUPPORTS_INPUT accept it"""
+    from harness import translate
+
+    t = type(data)
+    supported = []
+    for i, cl in enumerate(translate.registry_classes()):
+        try:
+            if cl.SUPPORTS_INPUT(data):
+                supported.append(i)
+        except Exception:
+            pass
+    return dict(module=t.__module__, qualname=t.__qualname__, supportedBy=supported)
 
 
 def _world(c):
@@ -277,7 +412,21 @@ def _world(c):
 
     df = pandas.DataFrame({"y": [1.0, 2.0, 4.0], "w": [0.0, 1.0, 1.0], "x": [0.5, 1.0, -2.0], "z": [3.0, 1.0, 2.0], "a": pandas.Categorical(["u", "v", "u"])})
     kind = c["data"]
-    data = df if kind == "pandas" else (pyarrow.Table.from_pandas(df, preserve_index=False) if kind == "arrow" else [1, 2, 3])
+    if kind == "pandas":
+        data = df
+    elif kind == "arrow":
+        data = pyarrow.Table.from_pandas(df, preserve_index=False)
+    elif kind == "dict":
+        data = {k: list(df[k]) for k in df.columns}
+    elif kind == "recarray":
+        data = df.astype({"a": object}).to_records(index=False)
+    elif kind in ("nwstable", "nwmain"):
+        import narwhals
+        import narwhals.stable.v1 as nw
+
+        data = (nw if kind == "nwstable" else narwhals).from_native(df, eager_only=True)
+    else:
+        data = [1, 2, 3]
     from formulaic import Formula
     from formulaic.formula import StructuredFormula
 
@@ -399,7 +548,7 @@ def applicable(c, entry):
 
 def impl_entry(c):
     w = _world(c)
-    out = {"dataMat": _data_mat(w["data"]), "entries": {}}
+    out = {"dataMat": _data_mat(w["data"]), "probe": _probe_facts(w["data"]), "entries": {}}
     for e in ENTRIES:
         if not applicable(c, e):
             continue
@@ -408,6 +557,17 @@ def impl_entry(c):
         r, _ = run_entry(c, e, w2, spec_obj)
         if "n/a" not in r:
             out["entries"][e] = r
+    named = [[k, v["name"]] if k == "materializer" and isinstance(v, dict) and v["t"] in ("cls", "inst") and v["name"] else [k, v]
+             for k, v in c["overrides"]]
+    if named != c["overrides"]:
+        # the same call with the materializer class / instance replaced by the NAME it is registered under
+        c2 = dict(c, overrides=named)
+        out["by_name"] = {}
+        for e in ENTRIES:
+            if applicable(c2, e):
+                r, _ = run_entry(c2, e, dict(w, drop=set() if c["drop"] else None), _spec_object(c["spec"]))
+                if "n/a" not in r:
+                    out["by_name"][e] = r
     return out
 
 
@@ -428,7 +588,7 @@ def entry_request(c, o):
         spec = dict(t="mspecs", parts=[dict(k=str(j), ms=ms_request(p)) for j, p in enumerate(sp["parts"])])
     return dict(
         op="entry",
-        call=dict(spec=spec, data=0, dataMat=o.get("dataMat"), context=1 if c["context"] else None,
+        call=dict(spec=spec, data=0, probe=o["probe"], context=1 if c["context"] else None,
                   dropRows=1 if c["drop"] else None, overrides=[dict(k=k, v=v) for k, v in c["overrides"]]),
     )
 
@@ -444,6 +604,8 @@ def _norm_requests(rs):
 
 
 def agree_entry(c, o, m):
+    if o["dataMat"] != m.get("dataMat"):
+        return f"for_data(data) picks {o['dataMat']!r}, the registry model {m.get('dataMat')!r}"
     for e, got in o["entries"].items():
         want = m.get(e)
         if want is None:
@@ -478,6 +640,16 @@ def oracle_entry(c, o):
             a, b = _erase_drop(ok[names[i]]["requests"]), _erase_drop(ok[names[j]]["requests"])
             if a != b:
                 return f"entry points {names[i]} and {names[j]} hand different requests to the materializer: {a} vs {b}"
+    for e, twin in (o.get("by_name") or {}).items():
+        got = o["entries"].get(e)
+        if got is None:
+            continue
+        if ("requests" in got) != ("requests" in twin):
+            f, g = (got, twin) if "error" in got else (twin, got)
+            return (f"entry point {e}: naming the materializer by its class/instance and by its registered name differ: one call fails "
+                    f"with {f['error']} ({f.get('msg', '')}), the other produces a matrix")
+        if "requests" in got and _erase_drop(got["requests"]) != _erase_drop(twin["requests"]):
+            return f"entry point {e}: materializer given as class/instance vs by name hand different requests on: {got['requests']} vs {twin['requests']}"
     if ok and bad:
         # the top-level function additionally resolves a materializer for the bare data before looking at the spec
         others_bad = {e: r for e, r in bad.items() if e != "sugar"}
@@ -554,6 +726,8 @@ def gen_atom(rng, cols):
         return "t"
     v = rng.choice(nums)
     w = rng.choice(nums)
+    if rng.random() < 0.18:
+        return rng.choice([f"arr2({v})", f"arr2({v})", f"arr1({w})", f"arr2({v})" if rng.random() < 0.8 else f"arr3({v})"])
     return rng.choice([v, v, f"I({v} + 1)", f"dbl({v})", f"I({v} * {w})", f"{{{v} - {w}}}"])
 
 
@@ -590,12 +764,19 @@ def gen_outputs_case(rng, tier):
         # the model-spec entry points on a spec that ALREADY has structure (the one attached to the matrix of variant
         # `sugar|extra`), and once more under another materializer/input/output combination
         respec=[rng.choice(MATS), rng.choice(OUTPUTS)],
+        more_outputs=[rng.choice(OUTPUTS) for _ in range(3)],
+        wrap=True,
     )
 
 
 def _matrix_obs(mm, output):
     names = [str(n) for n in mm.model_spec.column_names]
-    if hasattr(mm, "toarray"):
+    if output == "narwhals":
+        import narwhals.stable.v1 as nw
+
+        frame = nw.from_native(mm.__wrapped__, eager_only=True)
+        arr = frame.to_numpy() if frame.shape[1] else numpy.empty((frame.shape[0], 0))
+    elif hasattr(mm, "toarray"):
         arr = mm.toarray()
     else:
         arr = numpy.asarray(mm)
@@ -672,6 +853,18 @@ def impl_outputs(c):
     for mat in MATS:
         for output in OUTPUTS:
             variants[f"sugar|{mat}|{output}"] = run("sugar", mat, output)
+    for key, fn in _more_inputs(c, df, table, opts).items():
+        # the other input types the registry dispatches (dict, record array, narwhals frames) and the narwhals output
+        try:
+            with warnings.catch_warnings():
+                warnings.simplefilter("ignore")
+                mm = fn()
+            obs = _matrix_obs(mm, key.split("|")[2])
+            if key.split("|")[2] == "narwhals":
+                obs["native"] = type(mm.__wrapped__).__module__ + "." + type(mm.__wrapped__).__qualname__
+            variants[key] = obs
+        except Exception as e:
+            variants[key] = {"error": type(e).__name__, "msg": str(e)[:160]}
     mat, output = c["extra"]
     for entry in ENTRIES[1:]:
         variants[f"{entry}|{mat}|{output}"] = run(entry, mat, output)
@@ -682,7 +875,74 @@ def impl_outputs(c):
             variants[f"{entry}|{mat}|{output}"] = run(entry, mat, output, src)
         mat2, output2 = c["respec"]
         variants[f"respec_cross|{mat2}|{output2}"] = run("respec_cross", mat2, output2, src)
-    return {"variants": variants, "dataMat": {"pandas": _data_mat(df), "arrow": _data_mat(table)}}
+    if c.get("wrap") and src is not None:
+        # the ModelMatrix wrapper: copies and a pickle round trip still carry the spec (names) and the numbers, and
+        # are accepted wherever a spec is; ModelMatrices of a two-part formula carries a ModelSpecs of the same shape
+        import copy
+        import pickle
+
+        for how, fn in (("copy", copy.copy), ("deepcopy", copy.deepcopy), ("pickle", lambda m: pickle.loads(pickle.dumps(m)))):
+            try:
+                twin = fn(src)
+                obs = _matrix_obs(twin, output)
+                obs["is_matrix"] = type(twin).__name__
+                obs["same_spec_object"] = twin.model_spec is src.model_spec
+                variants[f"wrap_{how}|{mat}|{output}"] = obs
+                variants[f"respec_{how}|{mat}|{output}"] = run("respec_matrix", mat, output, twin)
+            except Exception as e:
+                variants[f"wrap_{how}|{mat}|{output}"] = {"error": type(e).__name__, "msg": str(e)[:160]}
+        data = table if mat == "arrow" else df
+        kw = dict(opts, output=output, materializer="pandas" if mat == "pandas" else "narwhals")
+        try:
+            recs = {}
+            with warnings.catch_warnings():
+                warnings.simplefilter("ignore")
+                ctx1, ctx2 = dict(CONTEXT), dict(CONTEXT)
+                with Recorder(dict(dummy, data=data, context=ctx1)) as rec:
+                    mms = model_matrix("1 ~ " + c["formula"], data, context=ctx1, **kw)
+                    recs["structured"] = rec.canonical()
+                with Recorder(dict(dummy, data=data, context=ctx2)) as rec:
+                    again = model_matrix(mms, data, context=ctx2)
+                    recs["structured_again"] = rec.canonical()
+            keys = lambda st: [str(k) for k in st._to_dict()] if hasattr(st, "_to_dict") else None
+            for label, st in (("structured", mms), ("structured_again", again)):
+                obs = _matrix_obs(st.rhs, output)
+                obs["requests"] = recs[label]
+                obs["container"] = type(st).__name__
+                obs["spec_container"] = type(st.model_spec).__name__
+                obs["keys"] = [keys(st), keys(st.model_spec)]
+                obs["lhs_names"] = [str(n) for n in st.lhs.model_spec.column_names]
+                variants[f"{label}|{mat}|{output}"] = obs
+        except Exception as e:
+            variants[f"structured|{mat}|{output}"] = {"error": type(e).__name__, "msg": str(e)[:160]}
+    return {"variants": variants, "dataMat": {"pandas": _data_mat(df), "arrow": _data_mat(table)},
+            "probe": {"pandas": _probe_facts(df), "arrow": _probe_facts(table)}}
+
+
+def _more_inputs(c, df, table, opts):
+    """{variant key: thunk}: the same data handed over as a dict of columns, a record array, a narwhals frame (stable API
+    and main namespace, on the pandas frame and on the pyarrow table) — dispatched by the registry, no materializer
+    nominated — and the narwhals output of the narwhals materializer"""
+    import narwhals
+    import narwhals.stable.v1 as nw
+    from formulaic import model_matrix
+
+    out = {}
+    o1, o2, o3 = c.get("more_outputs") or ["numpy", "pandas", "sparse"]
+    call = lambda data, **kw: (lambda: model_matrix(c["formula"], data, context=dict(CONTEXT), **dict(opts, **kw)))
+    out[f"dict|pandas|{o1}"] = call({k: df[k] for k in df.columns}, output=o1)
+    if len(df) == 1 and all(v["dtype"] in ("object", "str", "float64", "int64", "bool") for v in c["cols"].values()) and not df.isna().any().any():
+        # one row given as a dict of scalars (the dtypes a scalar can carry; a null scalar carries none)
+        out[f"scalars|pandas|{o1}"] = call({k: df[k].iloc[0] for k in df.columns}, output=o1)
+    if all(v["dtype"] in ("object", "float64", "int64", "bool") for v in c["cols"].values()):
+        out[f"recarray|pandas|{o2}"] = call(df.to_records(index=False), output=o2)
+    out[f"nwstable|narwhals|{o2}"] = call(nw.from_native(df, eager_only=True), output=o2)
+    out[f"nwmain|narwhals|{o3}"] = call(narwhals.from_native(df, eager_only=True), output=o3)
+    out[f"nwarrow|narwhals|{o1}"] = call(nw.from_native(table, eager_only=True), output=o1)
+    out["sugar_nwout|narwhals|narwhals"] = call(df, output="narwhals", materializer="narwhals")
+    out["sugar_nwout|arrow|narwhals"] = call(table, output="narwhals")
+    out["nwstable_nwout|narwhals|narwhals"] = call(nw.from_native(df, eager_only=True), output="narwhals")
+    return out
 
 
 def _respec_plan(c, o):
@@ -696,12 +956,26 @@ def _respec_plan(c, o):
     name = lambda m: o["dataMat"]["arrow"] if m == "arrow" else m
     ms = dict(formula=0, materializer=name(mat), params=None, efr=c["efr"], na=c["na"], output=output,
               cluster="numerical_factors" if c["cluster"] else "none")
-    call = lambda m, ov: dict(spec=dict(t="mspec", ms=ms), data=0, dataMat=o["dataMat"]["arrow" if m == "arrow" else "pandas"],
+    call = lambda m, ov: dict(spec=dict(t="mspec", ms=ms), data=0, probe=o["probe"]["arrow" if m == "arrow" else "pandas"],
                               context=1, dropRows=None, overrides=[dict(k=k, v=v) for k, v in ov])
     plan = [(f"respec_method|{mat}|{output}", "spec", 0), (f"respec_sugar|{mat}|{output}", "sugar", 0),
             (f"respec_matrix|{mat}|{output}", "sugar", 0), (f"respec_materializer|{mat}|{output}", "materializer", 0),
             (f"respec_cross|{mat2}|{output2}", "spec_ov", 1)]
-    return plan, [call(mat, []), call(mat2, [["output", output2], ["materializer", "pandas" if mat2 == "pandas" else "narwhals"]])]
+    calls = [call(mat, []), call(mat2, [["output", output2], ["materializer", "pandas" if mat2 == "pandas" else "narwhals"]])]
+    if c.get("wrap"):
+        plan += [(f"respec_{how}|{mat}|{output}", "sugar", 0) for how in ("copy", "deepcopy", "pickle")]
+        # the two-part formula through the top-level function (one joint request, two leaves), and the ModelMatrices it
+        # returns handed back as the spec (a ModelSpecs of two prepared leaves)
+        probe = o["probe"]["arrow" if mat == "arrow" else "pandas"]
+        ov = [["ensure_full_rank", c["efr"]], ["na_action", c["na"]], ["cluster_by", "numerical_factors" if c["cluster"] else "none"],
+              ["output", output], ["materializer", "pandas" if mat == "pandas" else "narwhals"]]
+        calls.append(dict(spec=dict(t="sformula", parts=[dict(k="0", f=0), dict(k="1", f=0)]), data=0, probe=probe, context=1, dropRows=None,
+                          overrides=[dict(k=k, v=v) for k, v in ov]))
+        leaf = dict(ms, materializer="pandas" if mat == "pandas" else "narwhals")
+        calls.append(dict(spec=dict(t="mspecs", parts=[dict(k="0", ms=leaf), dict(k="1", ms=leaf)]), data=0, probe=probe, context=1,
+                          dropRows=None, overrides=[]))
+        plan += [(f"structured|{mat}|{output}", "sugar", 2), (f"structured_again|{mat}|{output}", "sugar", 3)]
+    return plan, calls
 
 
 def outputs_request(c, o):
@@ -711,7 +985,7 @@ def outputs_request(c, o):
           ["output", output]]
     if mat != "arrow":
         ov.append(["materializer", mat])
-    return dict(op="entry", call=dict(spec=dict(t="formula", f=0), data=0, dataMat=o["dataMat"]["arrow" if mat == "arrow" else "pandas"],
+    return dict(op="entry", call=dict(spec=dict(t="formula", f=0), data=0, probe=o["probe"]["arrow" if mat == "arrow" else "pandas"],
                                       context=1, dropRows=None, overrides=[dict(k=k, v=v) for k, v in ov]),
                 more=_respec_plan(c, o)[1])
 
@@ -737,12 +1011,25 @@ def _compare_variants(c, va, vb, na, nb):
     if va["names"] != vb["names"]:
         return f"column names differ: {na} {va['names']} vs {nb} {vb['names']}"
     if va["shape"] != vb["shape"]:
-        return f"shapes differ: {na} {va['shape']} vs {nb} {vb['shape']}"
+        # a narwhals/pyarrow frame without columns cannot carry rows: only the column count is comparable there
+        if not ((va.get("native") or vb.get("native")) and va["shape"][-1:] == [0] and vb["shape"][-1:] == [0]):
+            return f"shapes differ: {na} {va['shape']} vs {nb} {vb['shape']}"
     inexact = any(s in c["formula"] for s in INEXACT)
     for i, (ra, rb) in enumerate(zip(va["rows"], vb["rows"])):
         for j, (x, y) in enumerate(zip(ra, rb)):
             if not _values_equal(x, y, inexact):
                 return f"values differ at row {i}, column {va['names'][j]!r}: {na} has {x}, {nb} has {y}"
+    return None
+
+
+def _non_numeric_cell(v):
+    """every cell of a model matrix is a number (never an object such as a nested sparse matrix)"""
+    if "error" in v:
+        return None
+    for i, row in enumerate(v["rows"]):
+        for j, x in enumerate(row):
+            if x.startswith("obj:"):
+                return f"cell (row {i}, column {v['names'][j] if j < len(v['names']) else j}) is not a number: {x[:80]}"
     return None
 
 
@@ -754,6 +1041,9 @@ def oracle_outputs(c, o):
     ref = names[0]
     for n in names:
         v = vs[n]
+        why = _non_numeric_cell(v)
+        if why:
+            return f"variant {n}: {why}"
         if "error" not in v and "shown" in v and v["shown"] != v["names"]:
             # a pandas frame cannot show two columns under one name twice unless the names repeat; compare as lists
             if len(v["shown"]) != len(v["names"]) or v["shown"] != v["names"]:
@@ -762,6 +1052,23 @@ def oracle_outputs(c, o):
         why = _compare_variants(c, vs[ref], vs[n], ref, n)
         if why:
             return why
+    for n, v in vs.items():
+        if "error" in v:
+            continue
+        if n.startswith("wrap_"):
+            if v["is_matrix"] != "ModelMatrix":
+                return f"{n}: the copy is a {v['is_matrix']}, not a ModelMatrix"
+            if n.startswith("wrap_copy") and not v["same_spec_object"]:
+                return f"{n}: a shallow copy of a ModelMatrix carries another spec object"
+        if n.startswith("structured"):
+            if v["container"] != "ModelMatrices" or v["spec_container"] != "ModelSpecs" or v["keys"] != [["lhs", "rhs"], ["lhs", "rhs"]]:
+                return f"{n}: a two-part formula gives {v['container']} with spec {v['spec_container']}, keys {v['keys']}"
+            if v["lhs_names"] != ["Intercept"]:
+                return f"{n}: the left-hand part `1` has columns {v['lhs_names']}"
+        if "native" in v:
+            want = {"sugar_nwout|narwhals|narwhals": "pandas.", "sugar_nwout|arrow|narwhals": "pyarrow.", "nwstable_nwout|narwhals|narwhals": "narwhals."}[n]
+            if not v["native"].startswith(want):
+                return f"{n}: output='narwhals' returned a {v['native']} (expected the input's own kind of frame, {want}*)"
     return None
 
 
@@ -826,6 +1133,17 @@ def gen_reuse_case(rng, tier):
             # materialised on the first rows only (other encoder state), then used on the whole data
             via=rng.choice(VIA) if i else rng.choice(["formula", "formula", "spec_head"]),
         ))
+    if rng.random() < 0.35:
+        # FAULT-THEN-REUSE: one call raises while a LATER term is being encoded (the earlier terms are already evaluated
+        # and encoded for that call's output type); the next call on the same object asks for another output type
+        i = rng.randrange(len(calls) - 1)
+        valid = gen_formula(rng, cols)
+        calls[i] = dict(calls[i], formula=valid + f" + C({rng.choice([n for n in cols if n in ('A', 'B')])}, contr.treatment(base='nope'))",
+                        via="formula", fault=True)
+        calls[i + 1] = dict(calls[i + 1], output=rng.choice([o for o in OUTPUTS if o != calls[i]["output"]]),
+                            via="formula" if calls[i + 1]["via"] == "spec_prev" else calls[i + 1]["via"])
+        if rng.random() < 0.7:  # the same (valid) terms again: their factors were evaluated and encoded by the failed call
+            calls[i + 1]["formula"] = valid
     return dict(kind="reuse", cols=cols, mat=rng.choice(MATS), calls=calls)
 
 
@@ -886,10 +1204,575 @@ def oracle_reuse(c, o):
         why = _compare_variants(r, r["fresh"], r["reused"], "a fresh materializer", "the reused materializer")
         if why:
             return f"{what}: {why}"
+        if k.get("fault") and "error" not in r["fresh"]:
+            continue  # the generator's faulty call happened to be valid: an ordinary call
+        for who in ("fresh", "reused"):
+            why = _non_numeric_cell(r[who])
+            if why:
+                return f"{what}: the {who} materializer's matrix: {why}"
         for who in ("fresh", "reused"):
             v = r[who]
             if "shown" in v and v["shown"] != v["names"]:
                 return f"{what}: the {who} frame shows columns {v['shown']} but the attached spec names {v['names']}"
+    return None
+
+
+# ----------------------------------------------------------------------------- stream `relabel`
+# MULTI-STEP HISTORY with a NON-DEFAULT ROW INDEX. A matrix with categorical factors is built on a training frame (default
+# labels), its model_spec is taken, and that spec is materialised — through every spec-based entry point, for pandas /
+# numpy / sparse output, by the pandas materializer, the narwhals materializer on the pandas frame and on the pyarrow
+# table — on rows of the same frame whose pandas row labels are NOT 0..n-1 (a held-out slice, a permutation, duplicated
+# labels, string labels, labels disjoint from / shifted against 0..n-1). Property: same formula (spec), data and options
+# => same numbers in the same column order. The row labels are not part of the data's content, so every variant must
+# ALSO equal the matrix of the same rows under fresh 0..n-1 labels, and a pandas output carries the labels of the rows
+# it kept, by POSITION. No model: the implementation is compared with itself.
+
+INDEX_KINDS = ["slice", "shuffled", "dups", "str", "disjoint", "shifted", "reversed"]
+
+
+def gen_relabel_formula(rng, cols):
+    cats = [n for n in cols if n in ("A", "B")]
+    nums = [n for n in cols if n in ("x", "y")]
+
+    def cat_atom():
+        v = rng.choice(cats)
+        q = rng.random()
+        if q < 0.4:
+            return v
+        if q < 0.75:
+            lv = list(cols[v]["levels"])
+            rng.shuffle(lv)
+            return f"C({v}, levels={lv!r})"
+        if q < 0.9:
+            return f"C({v}, contr.{rng.choice(['treatment', 'sum', 'helmert'])})"
+        return f"C({v})"
+
+    terms = []
+    for _ in range(rng.randint(1, 3)):
+        r = rng.random()
+        if r < 0.4:
+            t = cat_atom()
+        elif r < 0.75:
+            t = f"{cat_atom()}:{rng.choice(nums)}"
+        elif r < 0.85 and len(cats) > 1:
+            t = "A:B"
+        else:
+            t = rng.choice(nums)
+        if t not in terms:
+            terms.append(t)
+    return rng.choice(["", "", "0 + "]) + " + ".join(terms)
+
+
+def gen_relabel_case(rng, tier):
+    nrows = rng.randint(3, 8 if tier != "thorough" else 24)
+    nulls = rng.random() < 0.3
+    cols = gen_frame(rng, nrows, nulls)
+    kind = rng.choice(INDEX_KINDS)
+    perm = list(range(nrows))
+    rng.shuffle(perm)
+    return dict(kind="relabel", cols=cols, formula=gen_relabel_formula(rng, cols), efr=rng.random() < 0.6,
+                na=rng.choice(["drop", "drop", "ignore"]) if nulls else "drop",
+                train=[rng.choice(MATS), rng.choice(OUTPUTS)], index=kind, perm=perm,
+                extra=[rng.choice(MATS), rng.choice(OUTPUTS)])
+
+
+def _relabelled(df, kind, perm):
+    n = len(df)
+    if kind == "slice":
+        return df.iloc[1::2] if n > 1 else df
+    if kind == "shuffled":
+        return df.iloc[perm]
+    if kind == "reversed":
+        return df.iloc[::-1]
+    if kind == "dups":
+        return df.set_axis([i // 2 for i in range(n)])
+    if kind == "str":
+        return df.iloc[perm].set_axis([f"r{i}" for i in perm])
+    if kind == "disjoint":
+        return df.set_axis([1000 + 7 * i for i in range(n)])
+    return df.set_axis([i + 1 for i in range(n)])  # shifted: overlaps 0..n-1, one off
+
+
+def impl_relabel(c):
+    import pyarrow
+    from formulaic import model_matrix
+    from formulaic.materializers import FormulaMaterializer
+
+    train = build_frame(c["cols"])
+    test = _relabelled(train, c["index"], c["perm"])
+    plain = test.reset_index(drop=True)
+    try:
+        tables = {"train": pyarrow.Table.from_pandas(train, preserve_index=False), "test": pyarrow.Table.from_pandas(test, preserve_index=False)}
+    except Exception as e:
+        return {"skip": "pyarrow table could not be built: " + type(e).__name__}
+    name = lambda m: "pandas" if m == "pandas" else "narwhals"
+    tm, to = c["train"]
+    try:
+        with warnings.catch_warnings():
+            warnings.simplefilter("ignore")
+            mm0 = model_matrix(c["formula"], tables["train"] if tm == "arrow" else train, context=dict(CONTEXT), ensure_full_rank=c["efr"],
+                               na_action=c["na"], output=to, materializer=name(tm))
+    except Exception as e:
+        return {"skip": "training materialisation failed: " + type(e).__name__ + ": " + str(e)[:120]}
+    spec = mm0.model_spec
+    variants = {}
+
+    def run(key, fn, output, labelled):
+        try:
+            with warnings.catch_warnings():
+                warnings.simplefilter("ignore")
+                mm = fn()
+        except Exception as e:
+            variants[key] = {"error": type(e).__name__, "msg": str(e)[:160]}
+            return
+        obs = _matrix_obs(mm, output)
+        if output == "pandas" and labelled is not None:
+            obs["index"] = [str(x) for x in mm.index]
+        variants[key] = obs
+
+    ctx = lambda: dict(CONTEXT)
+    # the reference: the same rows under fresh labels
+    run("plain|pandas|numpy", lambda: spec.get_model_matrix(plain, context=ctx(), output="numpy", materializer="pandas"), "numpy", None)
+    for mat in MATS:
+        data = tables["test"] if mat == "arrow" else test
+        for output in OUTPUTS:
+            run(f"spec_ov|{mat}|{output}", lambda: spec.get_model_matrix(data, context=ctx(), output=output, materializer=name(mat)), output,
+                None if mat == "arrow" else True)
+    mat, output = c["extra"]
+    data = tables["test"] if mat == "arrow" else test
+    spec2 = spec.update(output=output, materializer=name(mat))
+    lab = None if mat == "arrow" else True
+    run(f"spec|{mat}|{output}", lambda: spec2.get_model_matrix(data, context=ctx()), output, lab)
+    run(f"sugar|{mat}|{output}", lambda: model_matrix(spec2, data, context=ctx()), output, lab)
+    run(f"sugar_matrix|{mat}|{output}", lambda: model_matrix(mm0, data, context=ctx(), output=output, materializer=name(mat)), output, lab)
+    run(f"materializer|{mat}|{output}", lambda: FormulaMaterializer.for_materializer(name(mat))(data, context=ctx()).get_model_matrix(spec2), output, lab)
+    run(f"materializer_ov|{mat}|{output}", lambda: FormulaMaterializer.for_materializer(name(mat))(data, context=ctx()).get_model_matrix(spec, output=output), output, lab)
+    # which rows a drop policy keeps: the rows without a null in a column the formula uses
+    used = [n for n in c["cols"] if n in c["formula"]]
+    keep = [i for i in range(len(test)) if c["na"] != "drop" or not any(pandas.isna(test[n].iloc[i]) for n in used)]
+    return {"variants": variants, "labels": [str(test.index[i]) for i in keep], "nrows": len(test)}
+
+
+def oracle_relabel(c, o):
+    if "skip" in o:
+        return None
+    vs = o["variants"]
+    ref_name = "plain|pandas|numpy"
+    ref = vs[ref_name]
+    for n, v in vs.items():
+        why = _non_numeric_cell(v)
+        if why:
+            return f"spec reused on relabelled rows ({c['index']}), variant {n}: {why}"
+        if n != ref_name:
+            why = _compare_variants(c, ref, v, "the same rows under labels 0..n-1 (pandas materializer, numpy output)", n)
+            if why:
+                return f"spec reused on rows labelled {c['index']!r}: {why}"
+        if "index" in v and v["index"] != o["labels"]:
+            return (f"spec reused on rows labelled {c['index']!r}, variant {n}: the frame's row labels are {v['index']}, the labels of the "
+                    f"rows kept (by position) are {o['labels']}")
+        if "shown" in v and v["shown"] != v["names"]:
+            return f"variant {n}: the frame shows columns {v['shown']} but the attached spec names {v['names']}"
+    return None
+
+
+# ----------------------------------------------------------------------------- stream `wrapper`
+# The ModelMatrix proxy itself (model_matrix.py): a random sequence of copy.copy / copy.deepcopy / pickle round trips
+# applied to a real model matrix of each output type must leave the numbers and the attached spec's column names alone
+# (model: Model/Wrapper.lean with copiers that renew the object identity); and random leaves offered to ModelMatrices /
+# ModelSpecs (a ModelMatrix, one without spec, a ModelSpec, something else) against `_prepare_item` / `.model_spec`.
+
+WRAP_FORMULAS = ["x + a", "a:x - 1", "x", "a + z"]
+
+
+def gen_wrapper_case(rng):
+    return dict(kind="wrapper", formula=rng.choice(WRAP_FORMULAS), output=rng.choice(OUTPUTS + ["narwhals"]),
+                mat=rng.choice(["pandas", "narwhals"]), ops=[rng.choice(["copy", "deepcopy", "pickle"]) for _ in range(rng.randint(0, 4))],
+                items=[[k, rng.choice(["matrix", "matrix", "matrix", "matrix_nospec", "spec", "other"])] for k in ["a", "b", "c"][: rng.randint(0, 3)]])
+
+
+def impl_wrapper(c):
+    import copy
+    import pickle
+
+    from formulaic import ModelMatrices, ModelMatrix, ModelSpecs, model_matrix
+
+    df = pandas.DataFrame({"x": [0.5, 1.0, -2.0], "z": [3.0, 1.0, 2.0], "a": pandas.Categorical(["u", "v", "u"])})
+    output = c["output"] if not (c["mat"] == "pandas" and c["output"] == "narwhals") else "pandas"
+    mm0 = model_matrix(c["formula"], df, output=output, materializer=c["mat"])
+    before = _matrix_obs(mm0, output)
+    mm = mm0
+    fns = {"copy": copy.copy, "deepcopy": copy.deepcopy, "pickle": lambda m: pickle.loads(pickle.dumps(m))}
+    for op in c["ops"]:
+        mm = fns[op](mm)
+    after = _matrix_obs(mm, output)
+    mk = {"matrix": lambda: mm, "matrix_nospec": lambda: ModelMatrix(numpy.zeros((2, 1))), "spec": lambda: mm0.model_spec, "other": lambda: 5}
+
+    def attempt(fn):
+        try:
+            r = fn()
+            return {"keys": [str(k) for k in r._to_dict()]}
+        except TypeError:
+            return {"error": "TypeError"}
+        except Exception as e:
+            return {"error": type(e).__name__, "msg": str(e)[:120]}
+
+    items = {k: mk[v]() for k, v in c["items"]}
+    matrices = attempt(lambda: ModelMatrices(**items))
+    return dict(
+        before=before, names=after["names"], rows=after["rows"], is_matrix=isinstance(mm, ModelMatrix),
+        wrapped_type=[type(mm0.__wrapped__).__name__, type(mm.__wrapped__).__name__],
+        same_spec_object=mm.model_spec is mm0.model_spec, same_wrapped_object=mm.__wrapped__ is mm0.__wrapped__,
+        matrices=matrices, specs=attempt(lambda: ModelSpecs(**items)),
+        model_spec=attempt(lambda: ModelMatrices(**items).model_spec) if "keys" in matrices else None,
+    )
+
+
+def wrapper_request(c, o):
+    return dict(op="wrapper", ops=c["ops"], names=o["before"]["names"], rows=o["before"]["rows"],
+                items=[dict(k=k, v=v) for k, v in c["items"]])
+
+
+def agree_wrapper(c, o, m):
+    for k in ("names", "rows", "same_spec_object", "same_wrapped_object", "matrices", "specs", "model_spec"):
+        got, want = o[k], m.get(k)
+        if isinstance(got, dict) and "error" in got and isinstance(want, dict) and "error" in want:
+            got, want = got["error"], want["error"]
+        if got != want:
+            return f"{k}: impl {got} vs model {want} after {c['ops']}"
+    return None
+
+
+def oracle_wrapper(c, o):
+    """property: the names stay available from the attached spec and the numbers stay the same, whatever the output type"""
+    what = f"after {c['ops']} on a {c['output']} matrix"
+    if not o["is_matrix"]:
+        return f"{what}: the result is not a ModelMatrix"
+    if o["wrapped_type"][0] != o["wrapped_type"][1]:
+        return f"{what}: the wrapped object changed type: {o['wrapped_type']}"
+    if o["names"] != o["before"]["names"]:
+        return f"{what}: the attached spec names {o['names']}, before {o['before']['names']}"
+    if o["rows"] != o["before"]["rows"]:
+        return f"{what}: the numbers changed: {o['rows']} vs {o['before']['rows']}"
+    return None
+
+
+# ----------------------------------------------------------------------------- stream `registry`
+# The materializer registry itself: `__register_implementation__` (run for every new FormulaMaterializer subclass),
+# `for_materializer`, `for_data`. A case creates 0-4 extra subclasses on top of the live registry (or of an empty one),
+# with random own/inherited REGISTER_NAME (duplicates, "", None), REGISTER_INPUTS, REGISTER_OUTPUTS, REGISTER_PRECEDENCE
+# (ties) and SUPPORTS_INPUT, then asks `for_data(data, output)` for the probe objects of translate.registry_probes and
+# `for_materializer(x)` for names, classes, instances and junk. The registry dicts are swapped for the duration of the
+# case and restored afterwards. Model: Model/Registry.lean (registration fold + both lookups); what the model is told
+# about a class is READ OFF the live class object (`_class_json`, the twin of translate.lean_mat_class).
+
+REG_NAMES = ["m1", "m2", "m3", "pandas", "narwhals"]
+REG_OUTPUTS = ["pandas", "numpy", "sparse", "narwhals", "custom"]
+REG_PRECS = ["100", "100", "100", "50", "150", "201/2", "-1"]
+BASE_CID = 90
+
+
+def _probe_objects():
+    from harness import translate
+
+    return dict(translate.registry_probes())
+
+
+def _canonical_type_names(obj):
+    """the names under which the type of `obj` can be registered so that `for_data` finds it (property side: a name that
+    resolves to the type; builtin types go by their bare name)"""
+    t = type(obj)
+    out = [f"{t.__module__}.{t.__qualname__}"]
+    if t.__module__ == "builtins":
+        out.append(t.__qualname__)
+    return out
+
+
+def _input_pool():
+    pool = []
+    for _, obj in sorted(_probe_objects().items()):
+        for n in _canonical_type_names(obj):
+            if n not in pool:
+                pool.append(n)
+    return pool + ["nonexistent.Type"]
+
+
+def gen_registry_case(rng, sweep=False):
+    kinds = sorted(_probe_objects())
+    if sweep:
+        qs = [dict(q="data", data=k, output=o) for k in kinds for o in [None, "pandas", "numpy", "sparse", "narwhals", "bogus"]]
+        qs += [dict(q="mat", t="name", v=v) for v in ["pandas", "narwhals", "nope", ""]]
+        qs += [dict(q="mat", t=t, c=c) for t in ("cls", "inst") for c in ("live:0", "live:1")]
+        qs += [dict(q="mat", t="cls", c="base")] + [dict(q="mat", t="other", v=v) for v in ("int", "dictclass", "none", "list")]
+        return dict(kind="registry", base="live", classes=[], queries=qs)
+    pool = _input_pool()
+    classes = []
+    for i in range(rng.randint(0, 4)):
+        a = dict(parent=rng.choice(["base", "base", "base", "pandas"] + list(range(i))))
+        r = rng.random()
+        if r < 0.75:
+            a["name"] = rng.choice(REG_NAMES)
+        elif r < 0.85:
+            a["name"] = rng.choice(["", None])
+        if rng.random() < 0.75:
+            a["inputs"] = [rng.choice(pool) for _ in range(rng.randint(0, 3))]
+        if rng.random() < 0.8:
+            a["outputs"] = rng.sample(REG_OUTPUTS, rng.randint(0, 3))
+        if rng.random() < 0.6:
+            a["prec"] = rng.choice(REG_PRECS)
+        if rng.random() < 0.55:
+            a["supports"] = rng.sample(kinds, rng.randint(0, 4))
+        classes.append(a)
+    qs = []
+    for _ in range(rng.randint(3, 8)):
+        if rng.random() < 0.7:
+            qs.append(dict(q="data", data=rng.choice(kinds), output=rng.choice([None, None] + REG_OUTPUTS + ["bogus"])))
+        else:
+            r = rng.random()
+            if r < 0.4:
+                qs.append(dict(q="mat", t="name", v=rng.choice(REG_NAMES + ["nope", ""])))
+            elif r < 0.8:
+                qs.append(dict(q="mat", t=rng.choice(["cls", "cls", "inst"]), c=rng.choice(["live:0", "live:1", "base"] + list(range(len(classes))))))
+            else:
+                qs.append(dict(q="mat", t="other", v=rng.choice(["int", "dictclass", "none", "list"])))
+    return dict(kind="registry", base=rng.choice(["live", "live", "empty"]), classes=classes, queries=qs)
+
+
+def _class_json(cid, c):
+    """what `__register_implementation__` / the lookups read of a class (twin of translate.lean_mat_class)"""
+    own_inputs = c.__dict__.get("REGISTER_INPUTS") if "REGISTER_INPUTS" in c.__dict__ else None
+    return dict(cid=cid, name=c.REGISTER_NAME, ownName="REGISTER_NAME" in c.__dict__,
+                ownInputs=None if own_inputs is None else [str(t) for t in own_inputs],
+                outputs=[str(o) for o in c.REGISTER_OUTPUTS], prec=fstr(Fraction(c.REGISTER_PRECEDENCE)))
+
+
+def _parse_listed(msg):
+    import ast
+    import re
+
+    m = re.search(r"are: (\(.*\))\.$", msg, re.S)
+    if not m:
+        return None
+    try:
+        return [str(x) for x in ast.literal_eval(m.group(1))]
+    except Exception:
+        return None
+
+
+def impl_registry(c):
+    from collections import defaultdict
+
+    from interface_meta import override
+
+    from formulaic.materializers import FormulaMaterializer, PandasMaterializer
+    from formulaic.materializers.base import FormulaMaterializerMeta as Meta
+    from harness import translate
+
+    live = translate.registry_classes()
+    objs = _probe_objects()
+    kind_of = {id(v): k for k, v in objs.items()}
+    saved = (Meta.REGISTERED_NAMES, Meta.REGISTERED_INPUTS)
+    try:
+        if c["base"] == "empty":
+            Meta.REGISTERED_NAMES, Meta.REGISTERED_INPUTS = {}, defaultdict(list)
+        else:
+            Meta.REGISTERED_NAMES = dict(saved[0])
+            Meta.REGISTERED_INPUTS = defaultdict(list, {k: list(v) for k, v in saved[1].items()})
+        synth = []
+        for i, a in enumerate(c["classes"]):
+            parent = FormulaMaterializer if a["parent"] == "base" else PandasMaterializer if a["parent"] == "pandas" else synth[a["parent"]]
+            attrs = {}
+            if "name" in a:
+                attrs["REGISTER_NAME"] = a["name"]
+            if "inputs" in a:
+                attrs["REGISTER_INPUTS"] = tuple(a["inputs"])
+            if "outputs" in a:
+                attrs["REGISTER_OUTPUTS"] = tuple(a["outputs"])
+            if "prec" in a:
+                attrs["REGISTER_PRECEDENCE"] = float(Fraction(a["prec"]))
+            if "supports" in a:
+                attrs["SUPPORTS_INPUT"] = override(classmethod(_make_supports(kind_of, tuple(a["supports"]))))
+            synth.append(type(FormulaMaterializer)(f"Synth{i}", (parent,), attrs))
+        cid = {cl: i for i, cl in enumerate(live)}
+        cid[FormulaMaterializer] = BASE_CID
+        for i, cl in enumerate(synth):
+            cid[cl] = 100 + i
+        everyone = list(cid)
+
+        def ref(x):
+            return FormulaMaterializer if x == "base" else live[int(x[5:])] if isinstance(x, str) else synth[x]
+
+        def supported_by(obj):
+            out = []
+            for cl in everyone:
+                try:
+                    if cl.SUPPORTS_INPUT(obj):
+                        out.append(cid[cl])
+                except Exception:
+                    pass
+            return out
+
+        def outcome(fn):
+            try:
+                return {"ok": cid.get(fn(), -1)}
+            except Exception as e:
+                msg = str(e)
+                kind = ("noOutput" if "that also supports output type" in msg else "noInput") if "No materializer is available" in msg else type(e).__name__
+                return {"error": type(e).__name__, "kind": kind, "listed": _parse_listed(msg), "msg": msg[:200]}
+
+        answers, facts = [], []
+        frame = objs["pandas"]
+        for q in c["queries"]:
+            if q["q"] == "data":
+                obj = objs[q["data"]]
+                t = type(obj)
+                facts.append(dict(module=t.__module__, qualname=t.__qualname__, supportedBy=supported_by(obj)))
+                answers.append(outcome(lambda: FormulaMaterializer.for_data(obj, output=q["output"])))
+            else:
+                facts.append(None)
+                if q["t"] == "name":
+                    arg = q["v"]
+                elif q["t"] == "cls":
+                    arg = ref(q["c"])
+                elif q["t"] == "inst":
+                    try:
+                        arg = ref(q["c"])(frame)
+                    except Exception as e:  # abstract class: no instance to ask about
+                        answers.append({"skip": type(e).__name__})
+                        continue
+                else:
+                    arg = {"int": 42, "dictclass": dict, "none": None, "list": [PandasMaterializer]}[q["v"]]
+                answers.append(outcome(lambda: FormulaMaterializer.for_materializer(arg)))
+        return dict(
+            classes=[_class_json(i, cl) for cl, i in cid.items()],
+            created=[100 + i for i in range(len(synth))],
+            names=[[n, cid.get(cl, -1)] for n, cl in Meta.REGISTERED_NAMES.items()],
+            inputs=[[t, [cid.get(cl, -1) for cl in lst]] for t, lst in Meta.REGISTERED_INPUTS.items()],
+            setOrder=[cid.get(cl, -1) for cl in set(Meta.REGISTERED_NAMES.values())],
+            facts=facts, answers=answers,
+            # with extra classes (which may displace the shipped ones): declared under a name `for_data` can look up;
+            # for the registry as shipped: declared under any name that resolves to the type
+            declares={str(i): sorted(k for k, obj in objs.items() if _declares(cl, obj, by_import=not synth)) for cl, i in cid.items()},
+        )
+    finally:
+        Meta.REGISTERED_NAMES, Meta.REGISTERED_INPUTS = saved
+
+
+def _make_supports(kind_of, kinds):
+    def SUPPORTS_INPUT(cls, data):
+        return kind_of.get(id(data)) in kinds
+
+    return SUPPORTS_INPUT
+
+
+def _declares(cl, obj, by_import):
+    """property side: does the class list the type of `obj` among its own REGISTER_INPUTS — under its qualified name
+    (bare name for builtins), or (`by_import`) under any dotted name that resolves to exactly that type"""
+    import pydoc
+
+    t = type(obj)
+    for n in cl.__dict__.get("REGISTER_INPUTS", ()):
+        if str(n) in _canonical_type_names(obj):
+            return True
+        if by_import:
+            try:
+                if pydoc.locate(str(n)) is t:
+                    return True
+            except Exception:
+                pass
+    return False
+
+
+def registry_request(c, o):
+    qs = []
+    for q, f in zip(c["queries"], o["facts"]):
+        if q["q"] == "data":
+            qs.append(dict(q="data", module=f["module"], qualname=f["qualname"], supportedBy=f["supportedBy"], output=q["output"]))
+        else:
+            ref = q.get("c")
+            cidv = BASE_CID if ref == "base" else int(ref[5:]) if isinstance(ref, str) else (100 + ref if ref is not None else 0)
+            qs.append(dict(q="mat", t=q["t"], v=q.get("v", ""), c=cidv))
+    return dict(op="registry", base=c["base"], classes=o["classes"], created=o["created"], setOrder=o["setOrder"], queries=qs)
+
+
+def agree_registry(c, o, m):
+    if o["names"] != m["names"]:
+        return f"REGISTERED_NAMES differs: impl {o['names']} vs model {m['names']}"
+    if o["inputs"] != m["inputs"]:
+        return f"REGISTERED_INPUTS differs: impl {o['inputs']} vs model {m['inputs']}"
+    if sorted(o["setOrder"]) != sorted(m["classes"]):
+        return f"set(REGISTERED_NAMES.values()) is {sorted(o['setOrder'])}, the model's registered classes are {sorted(m['classes'])}"
+    for q, got, want in zip(c["queries"], o["answers"], m["answers"]):
+        if "skip" in got:
+            continue
+        if "ok" in got or "ok" in want:
+            # the iteration order of `set(REGISTERED_NAMES.values())` is CPython's business: among accepting classes of equal
+            # precedence that are not explicitly registered for the input type, any one is the model's answer for SOME order
+            if got.get("ok") != want.get("ok") and not ("ok" in got and got["ok"] in want.get("any_order", [])):
+                return f"query {q}: impl {got} vs model {want}"
+            continue
+        if got["error"] != want["error"]:
+            return f"query {q}: impl raised {got['error']}, model {want['error']}"
+        if want["kind"] in ("noInput", "noOutput") and (got["kind"] != want["kind"] or got["listed"] != want["listed"]):
+            return f"query {q}: impl error {got['kind']} listing {got['listed']}, model {want['kind']} listing {want['listed']}"
+    return None
+
+
+def oracle_registry(c, o):
+    """property: `for_data` returns a materializer that accepts the input and offers the requested output whenever a
+    registered one exists (explicit registrations first, then by precedence), and only then; `for_materializer` returns
+    the class registered under a name / the class of an instance / a materializer class itself, and rejects the rest"""
+    cls = {d["cid"]: d for d in o["classes"]}
+    live_n = len([d for d in o["classes"] if d["cid"] < BASE_CID])
+    order = ([i for i in range(live_n)] if c["base"] == "live" else []) + o["created"]     # creation order
+    registrable = [i for i in order if cls[i]["ownName"] and cls[i]["name"]]
+    by_name = {}
+    for i in registrable:
+        by_name[cls[i]["name"]] = i
+    current = set(by_name.values())
+    prec = lambda i: Fraction(cls[i]["prec"])
+    for q, f, got in zip(c["queries"], o["facts"], o["answers"]):
+        if "skip" in got:
+            continue
+        if q["q"] == "mat":
+            if q["t"] == "name":
+                want = by_name.get(q["v"])
+                if want is None and "ok" in got:
+                    return f"for_materializer({q['v']!r}) returned class {got['ok']} although no class is registered under that name"
+                if want is not None and got.get("ok") != want:
+                    return f"for_materializer({q['v']!r}) gave {got}, the class registered (last) under that name is {want}"
+            elif q["t"] in ("cls", "inst"):
+                ref = q["c"]
+                want = BASE_CID if ref == "base" else int(ref[5:]) if isinstance(ref, str) else 100 + ref
+                if got.get("ok") != want:
+                    return f"for_materializer(<{q['t']} of class {want}>) gave {got}"
+            elif "ok" in got or got["error"] != "FormulaMaterializerInvalidError":
+                return f"for_materializer(<{q['v']}>) gave {got}, expected FormulaMaterializerInvalidError"
+            continue
+        kind, out = q["data"], q["output"]
+        declared = [i for i in registrable if cls[i]["ownInputs"] is not None and kind in o["declares"][str(i)]]
+        fallback = [i for i in current if i in f["supportedBy"]]
+        offers = lambda i: out is None or out in cls[i]["outputs"]
+        good_d, good_f = [i for i in declared if offers(i)], [i for i in fallback if offers(i)]
+        what = f"for_data(<{kind}>, output={out!r})"
+        if "ok" in got:
+            r = got["ok"]
+            if r not in declared and r not in fallback:
+                return f"{what} returned class {r}, which neither declares the input type nor accepts the input (SUPPORTS_INPUT)"
+            if not offers(r):
+                return f"{what} returned class {r}, which does not offer that output ({cls[r]['outputs']})"
+            if good_d:
+                if r not in declared:
+                    return f"{what} returned the fallback class {r} although {good_d} declare the input type and offer the output"
+                if prec(r) < max(prec(i) for i in good_d):
+                    return f"{what} returned class {r} (precedence {prec(r)}) although a declaring class with higher precedence offers the output"
+            elif prec(r) < max(prec(i) for i in good_f):
+                return f"{what} returned class {r} (precedence {prec(r)}) although an accepting class with higher precedence offers the output"
+        else:
+            if got["error"] != "FormulaMaterializerNotFoundError":
+                return f"{what} raised {got['error']}: {got.get('msg')}"
+            if good_d or good_f:
+                return (f"{what} raised FormulaMaterializerNotFoundError although class(es) {good_d + good_f} accept the input "
+                        f"(declared input type: {good_d}, SUPPORTS_INPUT: {good_f}) and offer the output: {got.get('msg')}")
     return None
 
 
@@ -919,7 +1802,11 @@ def gen_sparse_case(rng):
                     vals = [None if rng.random() < 0.15 else rng.choice(levels + pool[:1]) for _ in range(n)]
                     factors.append(dict(t="cat", name=f"f{k}", vals=vals, levels=levels, reduced=rng.random() < 0.4))
             terms.append(dict(scale=rng.choice(["1", "1", "2", "-3", "1/2", "0"]), factors=factors))
-        return dict(kind="sparse", op="pipeline", nrows=n, terms=terms)
+        if rng.random() < 0.45:
+            # a scoped term without factors: the intercept, `scale * _encode_constant(1, ...)` in `_build_model_matrix`
+            terms.insert(rng.randrange(len(terms) + 1), dict(scale=rng.choice(["1", "1", "2", "-3", "1/2", "0"]), factors=[dict(t="one", nrows=n)]))
+        # the column path exists twice (pandas and narwhals materializer): both against the one model
+        return dict(kind="sparse", op="pipeline", nrows=n, terms=terms, mat=rng.choice(["pandas", "narwhals"]))
     if r < 0.5:
         return dict(kind="sparse", op="mul", a=gen_col(rng, n), b=gen_col(rng, n))
     if r < 0.6:
@@ -964,7 +1851,7 @@ class _Spec:
 
 def impl_sparse(c):
     import scipy.sparse as sp
-    from formulaic.materializers import PandasMaterializer
+    from formulaic.materializers import NarwhalsMaterializer, PandasMaterializer
     from formulaic.utils.sparse import categorical_encode_series_to_sparse_csc_matrix
 
     op = c["op"]
@@ -1000,9 +1887,13 @@ def impl_sparse(c):
             n = c["nrows"]
             out = {}
             for output in ("sparse", "numpy"):
-                mzr = PandasMaterializer(pandas.DataFrame({"i": range(n)}))
+                mzr = (NarwhalsMaterializer if c.get("mat") == "narwhals" else PandasMaterializer)(pandas.DataFrame({"i": range(n)}))
                 cols = []
                 for t in c["terms"]:
+                    if [f["t"] for f in t["factors"]] == ["one"]:
+                        # as `_build_model_matrix` does for a scoped term without factors
+                        cols.append(("Intercept", float(Fraction(t["scale"])) * mzr._encode_constant(1, None, {}, _Spec(output), [])))
+                        continue
                     factors = []
                     for f in t["factors"]:
                         if f["t"] == "num":
@@ -1142,12 +2033,22 @@ def cases(rng, tier):
     n_entry = {"quick": 260, "thorough": 3000, "search": 80}[tier]
     n_sparse = {"quick": 500, "thorough": 6000, "search": 100}[tier]
     n_reuse = {"quick": 70, "thorough": 800, "search": 60}[tier]
+    n_reg = {"quick": 160, "thorough": 2500, "search": 80}[tier]
+    n_relabel = {"quick": 60, "thorough": 700, "search": 50}[tier]
+    n_wrap = {"quick": 60, "thorough": 600, "search": 30}[tier]
     for _ in range(n_out):
         yield gen_outputs_case(rng, tier)
     for _ in range(n_reuse):
         yield gen_reuse_case(rng, tier)
     for _ in range(n_entry):
         yield gen_entry_case(rng)
+    for _ in range(n_relabel):
+        yield gen_relabel_case(rng, tier)
+    for _ in range(n_wrap):
+        yield gen_wrapper_case(rng)
+    yield gen_registry_case(rng, sweep=True)
+    for _ in range(n_reg):
+        yield gen_registry_case(rng)
     for _ in range(n_sparse):
         yield gen_sparse_case(rng)
 
@@ -1160,6 +2061,12 @@ def describe(c):
         return f"entry,{c['spec']['t']},ov={len(c['overrides'])},{c['data']}"
     if k == "reuse":
         return f"reuse,{c['mat']},calls={len(c['calls'])}"
+    if k == "registry":
+        return f"registry,{c['base']},classes={len(c['classes'])}"
+    if k == "relabel":
+        return f"relabel,{c['index']},na={c['na']}"
+    if k == "wrapper":
+        return f"wrapper,{c['output']},ops={len(c['ops'])}"
     return f"sparse,{c['op']}"
 
 
@@ -1172,6 +2079,12 @@ def nontrivial(c):
     if k == "reuse":
         key = lambda q: (q["formula"], q["output"], q["efr"], q["na"], q["via"])
         return len({key(q) for q in c["calls"]}) >= 2
+    if k == "registry":
+        return len(c["classes"]) >= 2 or len(c["queries"]) > 20
+    if k == "relabel":
+        return True
+    if k == "wrapper":
+        return len(c["ops"]) >= 2 or len(c["items"]) >= 2
     return c["op"] == "pipeline" and any(len(t["factors"]) >= 2 for t in c["terms"]) or c["op"] in ("mul", "encode")
 
 
@@ -1183,6 +2096,12 @@ def impl(c):
         return impl_entry(c)
     if k == "reuse":
         return impl_reuse(c)
+    if k == "registry":
+        return impl_registry(c)
+    if k == "relabel":
+        return impl_relabel(c)
+    if k == "wrapper":
+        return impl_wrapper(c)
     return impl_sparse(c)
 
 
@@ -1190,12 +2109,16 @@ def request(c, o):
     if "harness_exception" in o or "skip" in o:
         return dict(op="noop")
     k = c["kind"]
-    if k == "reuse":
-        return dict(op="noop")  # no model: the stream compares the implementation with itself (fresh vs reused instance)
+    if k in ("reuse", "relabel"):
+        return dict(op="noop")  # no model: the stream compares the implementation with itself
     if k == "outputs":
         return outputs_request(c, o)
     if k == "entry":
         return entry_request(c, o)
+    if k == "registry":
+        return registry_request(c, o)
+    if k == "wrapper":
+        return wrapper_request(c, o)
     return sparse_request(c, o)
 
 
@@ -1207,12 +2130,16 @@ def agree(c, o, m):
     if "error" in m and len(m) == 1:
         return "engine: " + str(m["error"])
     k = c["kind"]
-    if k == "reuse":
+    if k in ("reuse", "relabel"):
         return None
     if k == "outputs":
         return agree_outputs(c, o, m)
     if k == "entry":
         return agree_entry(c, o, m)
+    if k == "registry":
+        return agree_registry(c, o, m)
+    if k == "wrapper":
+        return agree_wrapper(c, o, m)
     return agree_sparse(c, o, m)
 
 
@@ -1226,6 +2153,12 @@ def oracle(c, o):
         return oracle_entry(c, o)
     if k == "reuse":
         return oracle_reuse(c, o)
+    if k == "registry":
+        return oracle_registry(c, o)
+    if k == "relabel":
+        return oracle_relabel(c, o)
+    if k == "wrapper":
+        return oracle_wrapper(c, o)
     return oracle_sparse(c, o)
 
 
@@ -1234,20 +2167,34 @@ def classify(c, o, why):
 
 
 LEVEL_TEXT = (
-    "Proof: Lean theorems (Props/C05.lean). For ALL columns and sizes the sparse column operations the sparse output path "
-    "uses (csc_matrix(dense), multiply, scalar scaling, the sparse dummy encoder with optional drop_first, hstack into CSC "
-    "arrays) denote the dense operations, and therefore the whole sparse pipeline (`_encode_*` -> `_get_columns_for_term` "
-    "fast path -> per-term dictionaries -> hstack), written once generically in the column representation, equals the numpy "
-    "pipeline column for column and name for name. For ALL call records every pair of entry points (top-level function, "
-    "formula method, model-spec method with/without overrides, ModelSpecs joint/non-joint, materializer method) hands the same "
-    "request to FormulaMaterializer.get_model_matrix (same class, data, context layering, prepared spec options), with the "
-    "exact `drop_rows` forwarding stated separately. The kind tables of the materializers (generated) agree for every dtype "
-    "(decided on every run). The models are tied to the code by differential correspondence on every run; the agreement of "
-    "whole matrices across outputs, entry points (formula-based, and spec-based on a spec that already has structure), "
-    "materializer/input combinations and fresh vs reused materializer instances is checked on the real code."
+    "Proof: Lean theorems (Props/C05.lean, 28). (0) The property on the model as ONE statement: for every environment, call "
+    "record and formula content, any two output types asked through any two entry points (top-level function, formula method, "
+    "model-spec / model-specs method with or without overrides, materializer method) give, request by request and part by part, "
+    "the same column names in the same order and the same numbers whenever both succeed (`same_numbers_any_output_any_entry`), "
+    "composed of: (1) for ALL columns and sizes the sparse column operations (csc_matrix(dense), multiply, scalar scaling, the "
+    "sparse dummy encoder, hstack into CSC arrays) denote the dense ones and the whole sparse pipeline equals the numpy pipeline "
+    "column for column and name for name; (2) for ALL call records every pair of entry points hands the same request to "
+    "FormulaMaterializer.get_model_matrix (identical, `drop_rows` object included, when both forwarding flags probed on the live "
+    "code are set), they fail together, same context layering; the requested output type only changes the `output` field of the "
+    "prepared leaves. (3) The materializer registry: `__register_implementation__` in closed form for any creation history "
+    "(REGISTERED_INPUTS[t] = declaring classes, stably sorted by descending precedence; REGISTERED_NAMES[n] = last class of that "
+    "name), `for_materializer` (name / instance / class / invalid), `for_data` = first candidate offering the output, which "
+    "supports the input and the output whenever such a class exists and raises exactly otherwise, explicit registrations before "
+    "SUPPORTS_INPUT fallbacks, precedence order inside each group, independent of the set iteration order; the model reproduces "
+    "the live registry and dispatches every input type a shipped materializer declares (decided on the generated table on every "
+    "run); every request is served by a registered class that offers each leaf's output and is either the nominated one or "
+    "for_data's choice, which accepts the data, and its leaves agree on output / null policy / rank setting (RuntimeError "
+    "otherwise, in the model as in the code). (4) The ModelMatrix wrapper: copy / deepcopy / pickle in any sequence keep the "
+    "attached spec's names and the numbers (given faithful copiers), ModelMatrices/ModelSpecs accept exactly their leaf type and "
+    "`.model_spec` keeps the keys. (5) The kind tables of the materializers (generated) agree for every dtype. The models are "
+    "tied to the code by differential correspondence on every run (streams entry, registry, wrapper, sparseops, outputs); the "
+    "agreement of whole matrices across outputs, input types, entry points (formula-based, and spec-based on a spec that already "
+    "has structure, also on relabelled rows), materializer/input combinations and fresh vs reused materializer instances (also "
+    "after a failed call) is checked on the real code."
 )
 LEVEL_NOTE = (
     "Trusted: Lean kernel + propext/Classical.choice/Quot.sound; hand models of sparse.py / the fast column path / the "
-    "entry-point plumbing validated by correspondence; scipy/numpy/narwhals/pyarrow are observed (partial: library "
-    "conversions are not proved); for_data and frame capture are parameters / not modelled."
+    "entry-point plumbing / the registry / the wrapper validated by correspondence; scipy/numpy/narwhals/pyarrow are observed "
+    "(partial: library conversions are not proved); SUPPORTS_INPUT, type names and the set order are parameters read off the live "
+    "objects; frame capture is not modelled."
 )
